@@ -37,7 +37,12 @@ B == "bkt1"
 SeqsOfLen(n) == [1..n -> Alphabet]
 AllSeqs(n)   == UNION {SeqsOfLen(i) : i \in 1..n}
 \* keys neither start nor end with '/', and have no empty segment
-GoodKey(k) == k[1] # 47 /\ k[Len(k)] # 47 /\ \A i \in 1..(Len(k) - 1) : ~(k[i] = 47 /\ k[i + 1] = 47)
+\* ... and no segment is '.' or '..' (not canonical paths: outside the fs key domain, C10's subject)
+Segs(k) == LET cuts == {0, Len(k) + 1} \cup {i \in 1..Len(k) : k[i] = 47}
+               NextCut(a) == CHOOSE x \in cuts : x > a /\ \A y \in cuts : ~(y > a /\ y < x) IN
+           {SubSeq(k, a + 1, NextCut(a) - 1) : a \in cuts \ {Len(k) + 1}}
+GoodKey(k) == /\ k[1] # 47 /\ k[Len(k)] # 47 /\ \A i \in 1..(Len(k) - 1) : ~(k[i] = 47 /\ k[i + 1] = 47)
+              /\ <<46>> \notin Segs(k) /\ <<46, 46>> \notin Segs(k)
 Universe   == {k \in AllSeqs(MaxLen) : GoodKey(k)}
 \* fs key domain: no key is a directory of another key
 DirOf(a, b) == Len(a) < Len(b) /\ SubSeq(b, 1, Len(a)) = a /\ b[Len(a) + 1] = 47
